@@ -966,6 +966,17 @@ DIRECTED = {
         "t.go": 'package main\n\nimport "fmt"\n\ntype App struct{ S string }\n\nfunc NewApp(w fmt.Stringer, n string) *App { return &App{w.String() + n} }\n',
         "main.go": 'package main\n\nfunc main() { println(InitApp().S) }\n',
         "wire.go": '//go:build wireinject\n\npackage main\n\nimport (\n\t"fmt"\n\n\t"github.com/google/wire"\n\n\t. "vscratch/NAME/defaults"\n)\n\nfunc InitApp() *App {\n\twire.Build(wire.InterfaceValue(new(fmt.Stringer), Out), wire.Value(Name), NewApp)\n\treturn nil\n}\n'},
+    # the struct literal form fills EVERY field, also one tagged wire:"-" (wire's processStructLiteralProvider ignores the tag)
+    "struct_literal_wire_dash": {
+        "t.go": 'package main\n\ntype Addr string\ntype Logger struct{ S string }\ntype Server struct {\n\tAddr   Addr\n\tLogger *Logger `wire:"-"`\n}\n\nfunc NewAddr() Addr      { return ":80" }\nfunc NewLogger() *Logger { return &Logger{"log"} }\n',
+        "main.go": 'package main\n\nfunc main() { s := InitServer(); println(string(s.Addr), s.Logger != nil) }\n',
+        "wire.go": '//go:build wireinject\n\npackage main\n\nimport "github.com/google/wire"\n\nfunc InitServer() *Server {\n\twire.Build(NewAddr, NewLogger, Server{})\n\treturn nil\n}\n'},
+    # a value expression that SELECTS through a dot-imported variable
+    "dot_import_selector_value": {
+        "conf/c.go": 'package conf\n\ntype Name string\ntype Thing struct{ N Name }\n\nvar Defaults = struct {\n\tName Name\n\tPort int\n}{Name: "n", Port: 80}\n\nfunc NewThing(n Name, p int) *Thing { return &Thing{n} }\n',
+        "t.go": 'package main\n\nimport "vscratch/NAME/conf"\n\ntype App struct{ T *conf.Thing }\n\nfunc NewApp(t *conf.Thing) *App { return &App{t} }\n',
+        "main.go": 'package main\n\nfunc main() { println(string(InitApp().T.N)) }\n',
+        "wire.go": '//go:build wireinject\n\npackage main\n\nimport (\n\t"github.com/google/wire"\n\n\t. "vscratch/NAME/conf"\n)\n\nvar Set = wire.NewSet(NewThing, wire.Value(Defaults.Name), wire.Value(Defaults.Port))\n\nfunc InitApp() *App {\n\twire.Build(Set, NewApp)\n\treturn nil\n}\n'},
     # wire.Struct(new(T)) without field names fills no field (repaired: it was migrated as "*")
     "struct_no_field_names": {
         "t.go": 'package main\n\ntype Host string\n\ntype Config struct{ Host Host }\n\nfunc ProvideHost() Host { return "h" }\n\ntype App struct {\n\tC *Config\n\tH Host\n}\n\nfunc NewApp(c *Config, h Host) *App { return &App{c, h} }\n',
